@@ -821,33 +821,47 @@ func otherFileSystemDir() string {
 	return dir
 }
 
-// Siblings returns up to three strings of the same length as s with the first, the middle or the last byte replaced
-// by another byte of s's own alphabet (or by 'A' / 'C' when s uses one letter only): the same suffix, the same ends, the
-// same prefix. Checks evaluate them before the judged input and discard the results - a result must depend on the
-// call's own arguments only, whatever related input was seen before.
+// Siblings returns strings of the same length as s with the first, the middle or the last byte replaced by
+// another byte of s's own alphabet (or by 'A' / 'C' when s uses one letter only) - the same suffix, the same ends, the
+// same prefix: up to three alternatives each for the first and the last byte (which alternative collides with s
+// under a lossy key depends on the bit that is lost), one for the middle. Checks evaluate them before the judged
+// input and discard the results - a result must depend on the call's own arguments only, whatever related input
+// was seen before.
 func Siblings(s string) []string {
 	if len(s) == 0 {
 		return nil
 	}
-	other := func(c byte) byte {
-		for i := 0; i < len(s); i++ {
-			if s[i] != c {
-				return s[i]
+	others := func(c byte, max int) []byte {
+		var out []byte
+		seen := map[byte]bool{c: true}
+		for i := 0; i < len(s) && len(out) < max; i++ {
+			if !seen[s[i]] {
+				seen[s[i]] = true
+				out = append(out, s[i])
 			}
 		}
-		if c == 'A' {
-			return 'C'
+		if len(out) == 0 {
+			if c == 'A' {
+				return []byte{'C'}
+			}
+			return []byte{'A'}
 		}
-		return 'A'
+		return out
 	}
 	var out []string
 	seen := map[int]bool{}
 	for _, p := range []int{0, len(s) / 2, len(s) - 1} {
 		if !seen[p] {
 			seen[p] = true
-			b := []byte(s)
-			b[p] = other(b[p])
-			out = append(out, string(b))
+			max := 3
+			if p != 0 && p != len(s)-1 {
+				max = 1
+			}
+			for _, o := range others(s[p], max) {
+				b := []byte(s)
+				b[p] = o
+				out = append(out, string(b))
+			}
 		}
 	}
 	return out
